@@ -232,6 +232,15 @@ def fork_env(env):
     return {k: cp(v) for k, v in env.items()}
 
 
+_OPERATOR_EXPR = {
+    "add": "_op0 + _op1", "sub": "_op0 - _op1", "mul": "_op0 * _op1", "truediv": "_op0 / _op1", "floordiv": "_op0 // _op1", "mod": "_op0 % _op1",
+    "pow": "_op0 ** _op1", "matmul": "_op0 @ _op1", "and_": "_op0 & _op1", "or_": "_op0 | _op1", "xor": "_op0 ^ _op1", "lshift": "_op0 << _op1",
+    "rshift": "_op0 >> _op1", "neg": "-_op0", "pos": "+_op0", "invert": "~_op0", "inv": "~_op0", "not_": "not _op0", "lt": "_op0 < _op1", "le": "_op0 <= _op1",
+    "gt": "_op0 > _op1", "ge": "_op0 >= _op1", "eq": "_op0 == _op1", "ne": "_op0 != _op1", "is_": "_op0 is _op1", "is_not": "_op0 is not _op1",
+    "contains": "_op1 in _op0", "getitem": "_op0[_op1]", "truth": "bool(_op0)", "abs": "abs(_op0)", "index": "_op0",
+}
+
+
 class Interp:
     """analyse one entry function"""
 
@@ -1891,6 +1900,24 @@ class Interp:
             r = self._builtin(name, args, kwargs, st, fi, depth, n)
             if r is not None:
                 return r
+        # --- the operator module: operator.add(a, b) IS a + b (dispatch tables / shared `_binary_op(self, other, op)` helpers)
+        if name.startswith("operator.") and not kwargs:
+            tmpl = _OPERATOR_EXPR.get(name.split(".", 1)[1])
+            if tmpl is not None and tmpl.count("_op") == len(args):
+                saved = {k: st.env.get(k, _MISSING) for k in ("_op0", "_op1", "_op2")}
+                try:
+                    for i, a in enumerate(args):
+                        st.env[f"_op{i}"] = a
+                    expr = ast.parse(tmpl, mode="eval").body
+                    for sub in ast.walk(expr):
+                        ast.copy_location(sub, n)
+                    return self.eval(expr, st, fi, depth)
+                finally:
+                    for k, v in saved.items():
+                        if v is _MISSING:
+                            st.env.pop(k, None)
+                        else:
+                            st.env[k] = v
         # --- package callables
         if name.startswith(PKG + "."):
             parts = name.split(".")
